@@ -186,8 +186,9 @@ def e2e_case(case):
         incl = gen_pats(rng, list(files), rng.randint(0, 2), True) if rng.random() < 0.6 else []
         excl = gen_pats(rng, list(files), rng.randint(0, 2), True) if rng.random() < 0.6 else []
         # only whole-file semantics are judged here: strip nothing, but avoid line suffixes that hit the trigger line (3)
-        incl = [p for p in incl if not p.endswith(":3")]
-        excl = [p for p in excl if not p.endswith(":3")]
+        hit = (":1", ":2") if case["mode"] == "dep" else (":3",)   # the line(s) the trigger is rewritten on
+        incl = [p for p in incl if not p.endswith(hit)]
+        excl = [p for p in excl if not p.endswith(hit)]
         if any(":" in p for p in incl):
             incl = [p.split(":")[0] for p in incl]  # a ':line' include restricts lines (C13's concern): keep file-level includes here
         args = []
